@@ -860,6 +860,7 @@ async fn run_wildcards(sc: &Scenario, sink: &Sink) {
 }
 
 async fn run_scenario(sc: &Scenario, sink: &Sink) {
+    vharness::handlers::SLOW_GATE.open();
     if sc.variant == "wild" {
         return run_wildcards(sc, sink).await;
     }
@@ -1102,10 +1103,13 @@ async fn run_scenario(sc: &Scenario, sink: &Sink) {
                 let mut f = vec![(p.tx >> 8) as u8, p.tx as u8, 0, 0, (len >> 8) as u8, len as u8, st.unit];
                 f.extend_from_slice(&st.pdu);
                 sink.emit(json!({"e":"req","c":st.c,"bytes":bytes_json(&f)}));
+                // the slow handler (if the request reaches it) stays busy until `rsp_wait`
+                vharness::handlers::SLOW_GATE.close();
                 let _ = p.conn.write_all(&f).await;
-                tokio::time::sleep(Duration::from_millis(50)).await;
+                tokio::time::sleep(Duration::from_millis(150)).await;
             }
             "rsp_wait" => {
+                vharness::handlers::SLOW_GATE.open();
                 let p = match peers.get_mut(&st.c) {
                     Some(p) => p,
                     None => continue,
